@@ -2,6 +2,7 @@ package limiter
 
 import (
 	"fmt"
+	"runtime/debug"
 	"sort"
 
 	"verifharness/internal/ev"
@@ -82,6 +83,23 @@ func genSteps(r *gen.Rand, cfg tcfg) []tstep {
 	return steps
 }
 
+// guard turns a panic of the code under test (direct drive: it unwinds into the engine) into a
+// violation "panic|<innermost fiber frame>".
+func guard(e *ev.Env, c *ev.Case, input any, f func()) (panicked bool) {
+	defer func() {
+		if r := recover(); r != nil {
+			panicked = true
+			st := string(debug.Stack())
+			if len(st) > 3000 {
+				st = st[:3000]
+			}
+			e.Violation(c, "panic|"+ev.PanicSite(st), fmt.Sprintf("panic: %v", r), map[string]any{"input": input, "stack": st})
+		}
+	}()
+	f()
+	return false
+}
+
 // ---- one history: drive, judge, report
 
 type histRun struct {
@@ -95,7 +113,7 @@ func runHist(e *ev.Env, c *ev.Case, cfg tcfg, steps []tstep) *histRun {
 	rg := getRig(cfg)
 	var obs []tobs
 	var clockErr string
-	if e.Guard(c, "panic|"+cfg.algo(), map[string]any{"cfg": cfg, "steps": steps}, func() {
+	if guard(e, c, map[string]any{"config": cfg, "steps": steps}, func() {
 		obs, clockErr = rg.exec(c.ID, steps, -1)
 	}) {
 		return nil
@@ -128,7 +146,7 @@ var shrunk = map[string]int{}
 // against the real middleware again; only candidates that still produce sig are kept.
 func shrink(caseID string, hr *histRun, sig string) *histRun {
 	best := hr
-	budget := 400
+	budget := 200
 	try := func(cfg tcfg, steps []tstep) bool {
 		if budget <= 0 || len(steps) == 0 {
 			return false
@@ -267,7 +285,7 @@ func (hr *histRun) detail() map[string]any {
 func report(e *ev.Env, c *ev.Case, hr *histRun) {
 	for _, f := range hr.j.Findings {
 		d := hr.detail()
-		if shrunk[f.Sig] < 2 && e.Only == "" {
+		if shrunk[f.Sig] < 1 && e.Only == "" && !isCorpus(c) {
 			shrunk[f.Sig]++
 			small := shrink(c.ID, hr, f.Sig)
 			if small != hr {
@@ -330,7 +348,7 @@ func crossKey(e *ev.Env, c *ev.Case, hr *histRun, key int) {
 	rg := getRig(hr.cfg)
 	var obs []tobs
 	var clockErr string
-	if e.Guard(c, "panic|"+hr.cfg.algo(), map[string]any{"cfg": hr.cfg, "steps": hr.steps, "solo": key}, func() {
+	if guard(e, c, map[string]any{"config": hr.cfg, "steps": hr.steps, "solo": key}, func() {
 		obs, clockErr = rg.exec(c.ID, hr.steps, key)
 	}) || clockErr != "" {
 		return
